@@ -33,6 +33,69 @@ def resolve_ttl(req_ttl, def_ttl, max_ttl):
     return min(req_ttl, max_ttl)
 
 
+def queued_across_tmin(ctx, fails, dist):
+    """the clock that counts is the daemon's clock WHEN IT DECODES: a request that arrives before the window opens (it would be
+    'rewound'), waits in the work queue behind a stalled client while the clock moves into the window, succeeds - and reports
+    that decode time.  One worker thread held for the I/O timeout; virtual clock moved while the request waits."""
+    import rig, socket, struct, time
+    exe, err = rig.build_daemon(ctx, name="munged-c06q", san="address")
+    if exe is None:
+        ctx.violation("munged does not build: " + err[-300:], {"obligation": "build"}, found_input=False)
+        return
+    T = 1500000000
+    for ahead, qttl in ((10, 5), (8, 3)):
+        d = rig.Daemon(ctx, exe, tag="c06q", nthreads=1, clock=T + ahead)
+        if not d.start():
+            ctx.violation("daemon does not start (queue phase)", {"obligation": "start"}, found_input=False)
+            return
+        try:
+            r, st = rig.encode(d.sock, uid=3, gid=4, ttl=qttl, data=b"queued before the window")    # encode time T+ahead
+            d.set_clock(T)                                                          # window opens at T+ahead-ttl (skew = ttl by default)
+            early, st = rig.decode(d.sock, r["data"], uid=5, gid=6)
+            stall = socket.socket(socket.AF_UNIX, socket.SOCK_STREAM)
+            stall.connect(d.sock)
+            stall.sendall(rig.MAGIC_BYTES + b"\x04")          # a partial header: holds the only worker for the I/O timeout
+            time.sleep(0.15)
+            body = rig.dec_req_body(r["data"])
+            q = socket.socket(socket.AF_UNIX, socket.SOCK_STREAM)
+            q.connect(d.sock)
+            q.sendall(rig.hdr(rig.T_DEC_REQ, 0, len(body)) + body)   # arrives at T: before the window
+            time.sleep(0.25)
+            d.set_clock(T + ahead + 2)                               # ... and is decoded inside it
+            q.settimeout(8)
+            rep = b""
+            try:
+                while len(rep) < 11 or len(rep) < 11 + struct.unpack(">I", rep[7:11])[0]:
+                    c = q.recv(65536)
+                    if not c:
+                        break
+                    rep += c
+            except OSError:
+                pass
+            q.close(); stall.close()
+            ans = None
+            if len(rep) > 11:
+                try:
+                    ans = rig.parse_dec_rsp(rep[11:])
+                except rig.ParseError:
+                    ans = None
+            ctx.count(("queued-across-tmin", ahead))
+            dist["queued-across-tmin"] = dist.get("queued-across-tmin", 0) + 1
+            if early is None or early["error_num"] != 16:
+                fails.append({"why": "queue phase: a credential encoded at T+%d decoded at T gives %s, expected 16 (rewound)" % (ahead, early and early["error_num"])})
+            elif ans is None:
+                fails.append({"why": "a decode request that waited in the work queue got no reply"})
+            elif ans["error_num"] != 0 or ans["time1"] != T + ahead + 2:
+                fails.append({"why": "a decode request arrived at t=T (before the window of a credential encoded at T+%d opens), waited in the work queue "
+                                     "and was DECODED at t=T+%d, inside the window: the daemon answers error %d with decode time T%+d; the property "
+                                     "judges by the daemon's clock at the decode: success, decode time T+%d"
+                                     % (ahead, ahead + 2, ans["error_num"], ans["time1"] - T, ahead + 2), "cred_hex": r["data"].hex()})
+        finally:
+            rc, rep_ = d.stop()
+        if rep_.strip():
+            ctx.violation("sanitizer report from the daemon during the C06 queue phase", {"report": rep_[:3000]}, found_input=False)
+
+
 def run(ctx):
     ctx.level = "proof"
     proved = vlib.prove(ctx, ["Properties_C06.v"], facts=["cred", "base64", "cfun"])
@@ -205,6 +268,8 @@ def run(ctx):
     _c07.queued_across_expiry(ctx, orc, qf, dist)
     for f in qf:
         fails.append({"why": "decode time is not the daemon's clock at decode time: " + f["why"], "queued": True})
+    if not ctx.replay:
+        queued_across_tmin(ctx, fails, dist)
     ctx.cov["input_distribution"] = dist
     ctx.cov["traces_validated_against_impl"] = ctx.cov["evaluations"]
     # verdict
